@@ -56,6 +56,10 @@ def _special(m: Model, p: dict) -> bool:
     return bool(p["type"]["kind"] == "stringLiteral" or m.admits_null(p["type"]) or p.get("_always"))
 
 
+def _payload_typed(m, t: dict) -> bool:
+    return t["kind"] == "reference" and t["name"] in ("LSPAny", "LSPObject", "LSPArray")
+
+
 def roundtrip_relation(objects: Objects, o: Any, tv: TV, locus: str = "$", ctx: str = "-", strict: bool = False) -> List[Finding]:
     """o ~ j up to the documented null rule, directed by the reading tv (C01).
 
@@ -123,7 +127,11 @@ def roundtrip_relation(objects: Objects, o: Any, tv: TV, locus: str = "$", ctx: 
                 continue
             p = props.get(k)
             if o[k] is None:
-                if strict and not (p is not None and (m.admits_null(p["type"]) or p.get("_always"))):
+                # "any other unset optional property is omitted": a null that was not in the input is allowed only where the
+                # property admits null / is always written (strict mode: nowhere else; otherwise also at payload-typed
+                # properties, where Python has one None for null and absent)
+                ok_null = p is not None and (m.admits_null(p["type"]) or p.get("_always"))
+                if not ok_null and (strict or p is None or not _payload_typed(m, p["type"])):
                     out.append(("invented", f"{locus}+{k}", ctx, "unset optional property written as null"))
                 continue
             if p is not None and p["type"]["kind"] == "stringLiteral" and o[k] == p["type"]["value"]:
